@@ -22,6 +22,7 @@ import TantivyModel.Proofs.DocSet.ScoreCompose
 import TantivyModel.Proofs.DocSet.TinySetBridge
 import TantivyModel.Proofs.DocSet.TreeScore1
 import TantivyModel.Proofs.DocSet.TreeScore2
+import TantivyModel.Proofs.DocSet.TreeScore3
 import TantivyModel.Model.DocSet.Tree
 /-!
 # C13 — every DocSet is one sorted sequence under any mix of advance and seek
@@ -840,6 +841,26 @@ theorem C13_tree2_intersection_of_unions_score (fx : Fix) (dense : Bool) (g1 g2 
             = ((g1 :: g2 :: gs).map (fun g => groupScore g ((levelDS fx 2).doc (implFinal (levelDS fx 2) s prog)))).sum) :=
   tree2_inter_of_unions_score fx dense g1 g2 gs h1 h2 hs prog hl hnc hnf hnd
 
+/-- erasing ghost data commutes with every method of the required/optional scorer -/
+theorem C13_reqopt_erasure {σ' σ τ' τ : Type} {R' : DS σ'} {R : DS σ} {O' : DS τ'} {O : DS τ}
+    {φ : σ' → σ} {ψ : τ' → τ} (hφ : Hom R' R φ) (hψ : Hom O' O ψ) :
+    Hom (ReqOpt.ds R' O') (ReqOpt.ds R O) (ReqOpt.State.map2 φ ψ) := ReqOpt.hom hφ hψ
+
+/-- **`+a (b c …)`: a required leaf with an optional SUM union of leaves, two levels, on the model the
+driver builds and runs.** `score()` is the required leaf's score plus, on the documents of the union,
+the scores of the union's leaves containing the document (the optional union is moved by `score()`
+itself, through `seek`). -/
+theorem C13_tree2_reqopt_union_score (fx : Fix) (treq : Tree) (l : List Nat) (g : Group) (hr0 : Den 0 treq l)
+    (hg : GroupOK g) (prog : List Op) (hl : legalProg ⟨l, none⟩ prog = true)
+    (hnc : ∀ op ∈ prog, op ≠ Op.count) (hnf : noFill prog) (hnd : (specFinal ⟨l, none⟩ prog).danger = none) :
+    ∃ s, buildTree fx 2 (.reqopt true treq (.bunion true g.1)) = some s
+      ∧ (levelDS fx 2).doc (implFinal (levelDS fx 2) s prog) = Spec.doc (specFinal ⟨l, none⟩ prog).rest
+      ∧ ((levelDS fx 2).doc (implFinal (levelDS fx 2) s prog) < TERMINATED →
+          ((levelDS fx 2).score (implFinal (levelDS fx 2) s prog)).1
+            = scoreOf treq + (if (levelDS fx 2).doc (implFinal (levelDS fx 2) s prog) ∈ g.2.2
+                then groupScore g ((levelDS fx 2).doc (implFinal (levelDS fx 2) s prog)) else 0)) :=
+  tree2_reqopt_union_score fx treq l g hr0 hg prog hl hnc hnf hnd
+
 /-! ### open statements
 
 Proved above (no longer open): `Lawful` for Intersection (incl. the dense count), BufferedUnionScorer
@@ -855,8 +876,9 @@ leaf and is closed under SUM union, Disjunction, Intersection, Exclude and Requi
 carry their total score function as ghost data (`DS.withGhost`); the formal link from those scorer
 types to the driver's `levelDS` / `buildTree` is written for nesting depth 1 (`C13_tree1_*_score`:
 one scoring node over leaves, where no ghost data is needed) and, at depth 2, for intersections of
-SUM unions (`C13_tree2_intersection_of_unions_score`, through `C13_intersection_erasure`); for the
-other shapes of depth >= 2 it is open (it needs "erasing the ghost data commutes with every method"
+SUM unions and required/optional nodes over a leaf and a SUM union
+(`C13_tree2_intersection_of_unions_score`, `C13_tree2_reqopt_union_score`, through
+`C13_intersection_erasure` / `C13_reqopt_erasure`); for the other shapes of depth >= 2 it is open (it needs "erasing the ghost data commutes with every method"
 for the other parent kinds, as proved for the intersection).
 
 Hypothesis kept: the children of an Intersection hold documents with doc + BLOCK_WINDOW ≤ TERMINATED
@@ -1054,6 +1076,10 @@ example : GroupOK ([.vec [1, 5] 2, .vec [5, 7] 3], [[1, 5], [5, 7]], [1, 5, 7]) 
 example : (buildTree {} 2 (.inter false [.bunion true [.vec [1, 5] 2, .vec [5, 7] 3], .bunion true [.vec [5, 9] 4, .bits [7] 8 1]])).map
       (fun s => ((levelDS {} 2).doc s, ((levelDS {} 2).score s).1,
         ((levelDS {} 2).score (implFinal (levelDS {} 2) s [.advance])).1)) = some (5, 9, 4) := by
+  decide +kernel
+example : (buildTree {} 2 (.reqopt true (.vec [1, 5, 9] 2) (.bunion true [.vec [5, 7] 3, .bits [9] 16 4]))).map
+      (fun s => (((levelDS {} 2).score s).1, ((levelDS {} 2).score (implFinal (levelDS {} 2) s [.advance])).1,
+        ((levelDS {} 2).score (implFinal (levelDS {} 2) s [.seek 9])).1)) = some (2, 5, 6) := by
   decide +kernel
 example : Exclude.ok [[5, 7], [9]] 1 = true ∧ Exclude.ok [[5, 7], [9]] 9 = false := by decide
 example : Vec.V (Vec.init [1, 5, 9] 2) [1, 5, 9] := ⟨rfl, by
